@@ -86,6 +86,14 @@ func yield(site string) {
 // escaping exec is the answer "fault").  Returns the answers per thread, the yield sites hit and whether some thread was
 // preempted inside a step.
 func runThreads(n int, accept func(site string) bool, steps func(t int) int, exec func(t, i int) string, schedule []int) (outs [][]string, sites map[string]int, preempted bool) {
+	return runThreadsB(n, accept, nil, steps, exec, schedule)
+}
+
+// runThreadsB: as runThreads; `blocked(t, step, site, parkedAt, curStep)` tells whether releasing thread t (parked at
+// `site` inside its step number `step`) would make it block on a mutex held by a parked thread — such a schedule entry is
+// skipped (the model does the same), and the final drain passes over the threads until all have finished.
+func runThreadsB(n int, accept func(site string) bool, blocked func(t int, parkedAt []string, curStep []int) bool,
+	steps func(t int) int, exec func(t, i int) string, schedule []int) (outs [][]string, sites map[string]int, preempted bool) {
 	s := &scheduler{events: make(chan event), sites: map[string]int{}, accept: accept}
 	active = s
 	defer func() { active = nil }()
@@ -94,16 +102,22 @@ func runThreads(n int, accept func(site string) bool, steps func(t int) int, exe
 		finished
 	)
 	state := make([]int, n)
+	parkedAt := make([]string, n)
+	curStep := make([]int, n)
 	outs = make([][]string, n)
 	wait := func(t int) {
 		ev := <-s.events
 		if ev.done {
 			state[t] = finished
+			parkedAt[t] = ""
 		} else {
 			state[t] = parked
+			parkedAt[t] = ev.site
 			s.sites[ev.site]++
 		}
+		curStep[t] = len(outs[t])
 	}
+	isBlocked := func(t int) bool { return blocked != nil && blocked(t, parkedAt, curStep) }
 	// start the threads one at a time; each parks at its first "op" yield (or finishes at once)
 	for t := 0; t < n; t++ {
 		s.release = append(s.release, make(chan struct{}))
@@ -131,7 +145,7 @@ func runThreads(n int, accept func(site string) bool, steps func(t int) int, exe
 	}
 	last := -1
 	for _, t := range schedule {
-		if t >= n || state[t] == finished {
+		if t >= n || state[t] == finished || isBlocked(t) {
 			continue
 		}
 		if last >= 0 && last != t && state[last] == parked {
@@ -140,9 +154,11 @@ func runThreads(n int, accept func(site string) bool, steps func(t int) int, exe
 		step(t)
 		last = t
 	}
-	for t := 0; t < n; t++ {
-		for state[t] == parked {
-			step(t)
+	for pass := 0; pass < n; pass++ {
+		for t := 0; t < n; t++ {
+			for state[t] == parked && !isBlocked(t) {
+				step(t)
+			}
 		}
 	}
 	return outs, s.sites, preempted
